@@ -136,3 +136,70 @@ package blockchain
 //@   ensures consistent_with_state_update: result1 == nil ==> *block.Hash == *stateUpdate.BlockHash && *block.GlobalStateRoot == *stateUpdate.NewRoot
 //@   ensures classes_verified: result1 == nil ==> calls_VerifyClassHashes == old(calls_VerifyClassHashes) + 1 && classHashesErr == nil && arg_VerifyClassHashes_classes == newClasses
 //@   ensures hash_recomputed: result1 == nil ==> calls_BackendVerifyBlockHash == old(calls_BackendVerifyBlockHash) + 1 && blockHashErr == nil && arg_BackendVerifyBlockHash_b == block && arg_BackendVerifyBlockHash_stateDiff == stateUpdate.StateDiff && result0 == blockHashCommitments
+
+// ---- the candidate iterator does not skip the head of a window -----------------------------------
+// Only the first window of a scan starts at the range's offset; every later window is scanned from
+// its first block. Stated where the window's candidate bits are computed (for the running window
+// and for a cached window; the fetch path calls the cache's fallback function, an unknown function
+// value, after which nothing about the iterator is known to the verifier).
+// Assumed: the bit-set constructor, the filters' accessors and the LRU cache do not write to the
+// iterator.
+//@ extern func github.com/bits-and-blooms/bitset.New
+//@   ensures result != nil
+//@ extern func github.com/NethermindEth/juno/core.(*RunningEventFilter).FromBlock
+//@ extern func github.com/NethermindEth/juno/core.(*RunningEventFilter).InnerFilter
+//@ extern func github.com/NethermindEth/juno/core.(*AggregatedBloomFilter).FromBlock
+//@ extern func github.com/NethermindEth/juno/core.(*AggregatedBloomFilter).ToBlock
+//@ extern func github.com/NethermindEth/juno/utils/lru.(*Cache).Get
+//@ extern func github.com/NethermindEth/juno/utils/lru.(*Cache).Add
+//@ func (*EventMatcher).getCandidateBlocksForFilterInto
+//@   trusted
+//@ func (*MatchedBlockIterator).loadNextWindow
+//@   props C09
+//@   arith int
+//@   nosafe
+//@   requires it != nil
+//@   modifies *
+//@   callsite getCandidateBlocksForFilterInto@3: scan_starts_where_the_range_does: (old(it.currentBits) == nil ==> it.nextIndex == old(it.rangeStart) % 8192) && (old(it.currentBits) != nil ==> it.nextIndex == 0)
+//@   callsite getCandidateBlocksForFilterInto@2: scan_starts_where_the_range_does: (old(it.currentBits) == nil ==> it.nextIndex == old(it.rangeStart) % 8192) && (old(it.currentBits) != nil ==> it.nextIndex == 0)
+//@   callsite getCandidateBlocksForFilterInto@*: next_window: $2 == it.currentBits
+
+// ---- the scan limit never swallows a candidate block ---------------------------------------------
+// When the iterator reports that the scan limit ran out it names the candidate block it did not
+// hand over; the query then ends with a continuation token pointing at exactly that block (so the
+// next page starts with it), whatever its position in the range - including its last block.
+//@ ghost func errIs(err error, target error) bool
+//@ extern func errors.Is
+//@   ensures result == errIs(err, target)
+//@   ensures err == target && err != nil ==> result
+//@   ensures err == nil && target != nil ==> !result
+//@ ghost var nextBlock uint64
+//@ ghost var nextErr error
+//@ pure func scanLimit() error = ErrMaxScannedBlockLimitExceed
+//@ global ErrMaxScannedBlockLimitExceed != nil
+//@ func (*AggregatedBloomFilterCache).NewMatchedBlockIterator
+//@   trusted
+//@   ensures result1 == nil ==> result0.rangeStart == fromBlock && result0.rangeEnd == toBlock && result0.maxScanned == maxScanned
+// Assumed (the iterator's own bookkeeping, see Next): on the scan-limit error the limit is in fact
+// exceeded and the block named lies inside the range.
+//@ func (*MatchedBlockIterator).Next
+//@   trusted
+//@   logged as IterNext
+//@   sets nextBlock = result0
+//@   sets nextErr = result2
+//@   modifies it.currentBits, it.nextIndex, it.currentWindowStart, it.done, it.scannedCount
+//@   ensures result1 ==> result2 == nil
+//@   ensures errIs(result2, scanLimit()) ==> it.scannedCount > it.maxScanned && result0 <= it.rangeEnd
+//@ extern func github.com/NethermindEth/juno/core.GetTransactionEventsByBlockNumber
+//@ func (*EventMatcher).AppendBlockEventsFromTransactionEvents
+//@   trusted
+//@ func (*EventFilter).canonicalEvents
+//@   props C09
+//@   arith int
+//@   nosafe
+//@   requires e != nil && toBlock <= e.toBlock
+//@   modifies *
+//@   assigns nextBlock, nextErr, calls_IterNext
+//@   loop 1: invariant range: matchedBlockIter.rangeEnd == toBlock && e.toBlock == old(e.toBlock)
+//@   callsite NewMatchedBlockIterator@*: over_the_asked_range: $1 == fromBlock && $2 == toBlock && $3 == uint64(e.maxScanned) && $4 == &e.matcher && $5 == e.runningFilter
+//@   ensures scan_limit_hands_over_the_unscanned_candidate: result2 == nil && nextErr != nil && errIs(nextErr, scanLimit()) && calls_IterNext > old(calls_IterNext) ==> result1.fromBlock == nextBlock && result1.processedEvents == 0
